@@ -59,14 +59,14 @@ func vfASCII(s string) string {
 
 // ---------------------------------------------------------------- corpus (the package's testdata)
 
-var vfCorpusCache [][]byte
+var vfCorpusTree, vfCorpusTok [][]byte // tree-construction inputs (.dat), tokenizer inputs (.test)
 var vfBigDoc []byte
 
-func vfCorpus() [][]byte {
-	if vfCorpusCache != nil {
-		return vfCorpusCache
+func vfCorpus() ([][]byte, [][]byte) {
+	if vfCorpusTree != nil {
+		return vfCorpusTree, vfCorpusTok
 	}
-	var out [][]byte
+	var tree, tok [][]byte
 	for _, pat := range []string{"testdata/html5lib-tests/tree-construction/*.dat", "testdata/go/*.dat"} {
 		files, _ := filepath.Glob(pat)
 		for _, f := range files {
@@ -83,7 +83,7 @@ func vfCorpus() [][]byte {
 				for i++; i < len(lines) && !strings.HasPrefix(lines[i], "#errors"); i++ {
 					d = append(d, lines[i])
 				}
-				out = append(out, []byte(strings.Join(d, "\n")))
+				tree = append(tree, []byte(strings.Join(d, "\n")))
 			}
 		}
 	}
@@ -101,25 +101,34 @@ func vfCorpus() [][]byte {
 		}
 		for _, k := range []string{"tests", "xmlViolationTests"} {
 			for _, x := range doc[k] {
-				out = append(out, []byte(x.Input))
+				tok = append(tok, []byte(x.Input))
 			}
 		}
 	}
 	if b, err := os.ReadFile("testdata/go1.html"); err == nil {
 		vfBigDoc = b
 	}
-	if len(out) == 0 {
-		out = append(out, []byte("<p>no testdata</p>"))
+	if len(tree) == 0 {
+		tree = append(tree, []byte("<p>no testdata</p>"))
 	}
-	vfCorpusCache = out
-	return out
+	if len(tok) == 0 {
+		tok = append(tok, []byte("&amp;"))
+	}
+	vfCorpusTree, vfCorpusTok = tree, tok
+	return tree, tok
 }
 
 // ---------------------------------------------------------------- input generator
 
 type vfGen struct {
 	r      *rand.Rand
-	corpus [][]byte
+	corpus [][]byte // tree-construction inputs
+	tokc   [][]byte // tokenizer inputs
+}
+
+func vfNewGen(r *rand.Rand) *vfGen {
+	tree, tok := vfCorpus()
+	return &vfGen{r: r, corpus: tree, tokc: tok}
 }
 
 func (g *vfGen) pick(xs []string) string { return xs[g.r.Intn(len(xs))] }
@@ -138,7 +147,7 @@ var vfRawTags = []string{"script", "style", "textarea", "title", "xmp", "iframe"
 
 var vfTextBits = []string{"a", "b", "x", "text", "Hello", " ", " ", "\n", "\t", "\f", "\r", "\r\n", "\x00", "&amp;", "&lt", "&lt;",
 	"&gt;", "&quot;", "&#x41;", "&#65;", "&#0;", "&#13;", "&#10;", "&#32;", "&#1114112;", "&#x110000;", "&#xD800;", "&#128;", "&#x9F;",
-	"&#99999999999;", "&notit;", "&notin;", "&nosuch;", "&", "&#", "&#x", "&a", "&AMP", "&amp=", "&not=", "\xff", "\xc3", "\xe2\x82",
+	"&#99999999999;", "&notit;", "&notin;", "&nosuch;", "&nGt;", "&nLt;", "&", "&#", "&#x", "&a", "&AMP", "&amp=", "&not=", "\xff", "\xc3", "\xe2\x82",
 	"\xc3\xa9", "\xe2\x82\xac", "\xf0\x9d\x92\xb3", "\xef\xbf\xbd", "<", ">", "\"", "'", "=", "/", "-", "--", "!", "?", "]", "]]", "[",
 	"0", "9", ";", "#", "< ", "<3", "<<", "</", "</ ", "<>", "</>"}
 
@@ -174,9 +183,18 @@ func (g *vfGen) caseMangle(s string) string {
 	return s
 }
 
+var vfValBits = []string{"&#13;", "&#10;", "&#9;", "&quot;", "&#34;", "&#39;", "&amp;", "&lt;", "&gt;", "\r", "\n", "\r\n", "\x00", "a", "b", " ",
+	"=", "&amp", "&not", "&notit;", "&amp=", "\"", "'", "<", ">", "`", "/", "&#x0D;", "&#0;", "\xc3\xa9", "\xff"}
+
 func (g *vfGen) attr() string {
 	k := g.pick(vfAttrKeys)
 	v := g.text(g.r.Intn(3))
+	if g.r.Intn(2) == 0 {
+		v = ""
+		for n := g.r.Intn(4); n > 0; n-- {
+			v += g.pick(vfValBits)
+		}
+	}
 	switch g.r.Intn(12) {
 	case 0:
 		return k
@@ -259,6 +277,12 @@ func (g *vfGen) comment() string {
 		return "<!--" + g.text(2) + "--!>"
 	case 8:
 		return "<!--" + g.text(2) + g.pick([]string{"", "-", "--", "--!", "->", ">", "--!-", "<!--", "<!-"})
+	case 11, 12:
+		var sb strings.Builder
+		for n := 1 + g.r.Intn(5); n > 0; n-- {
+			sb.WriteString(g.pick([]string{"-", "--", "!", ">", "&gt;", "<", "<!--", "&amp;", "&#13;", "x", " ", "--!", "&#45;", "&#33;", "&", "\n", "\r\n"}))
+		}
+		return "<!--" + sb.String() + g.pick([]string{"-->", "-->", "-->", "--!>", "", "--"})
 	case 9, 10:
 		return "<!--" + g.pick([]string{"&#13;", "a&#13;&#10;b", "-", "--", ">", "->", "--!", "&gt;", "--&gt;", "&amp;", "\r", "\x00", "!>", "<!-",
 			"x&#xD;", "&#13;&#13;", "--!&gt;", "-&gt;", "&#0;", "&#x2d;-&gt;"}) + "-->"
@@ -499,15 +523,86 @@ func (g *vfGen) deep() []byte {
 	return []byte(strings.Repeat("<"+n+">", k) + "x")
 }
 
-// input: class 0 = mixed
+var vfFormatting = []string{"a", "b", "i", "em", "font", "nobr", "s", "u", "code", "big", "small", "strike", "strong", "tt"}
+var vfTreeNames = []string{"p", "div", "li", "dd", "dt", "h1", "h2", "ul", "ol", "blockquote", "address", "center", "pre", "listing", "form",
+	"button", "fieldset", "details", "summary", "applet", "marquee", "object", "table", "caption", "td", "th", "tr", "tbody", "thead", "tfoot",
+	"colgroup", "col", "template", "html", "body", "head", "select", "option", "optgroup", "svg", "math", "frameset", "frame", "noscript",
+	"title", "textarea", "script", "style", "plaintext", "br", "hr", "img", "input", "image", "ruby", "rb", "rt", "rp", "rtc", "menuitem",
+	"main", "xmp", "iframe", "dialog", "search", "span", "x-y", "mi", "foreignObject", "desc", "annotation-xml", "keygen", "area", "wbr", "embed"}
+
+// treeish: short sequences of start / end tags and text, misnested on purpose (formatting
+// elements across blocks, table parts, scope markers, implied end tags, </br>, </p>)
+func (g *vfGen) treeish() []byte {
+	var sb strings.Builder
+	var open []string
+	if g.r.Intn(8) == 0 {
+		sb.WriteString(g.pick([]string{"<!DOCTYPE html>", "<html>", "<body>", "<table>", "<select>", "<svg>", "<math>", "<template>", "<frameset>", "<head>"}))
+	}
+	for n := 3 + g.r.Intn(12); n > 0; n-- {
+		name := g.pick(vfTreeNames)
+		if g.r.Intn(5) < 2 {
+			name = g.pick(vfFormatting)
+		}
+		switch x := g.r.Intn(20); {
+		case x < 10:
+			if g.r.Intn(8) == 0 {
+				sb.WriteString(g.startTag(name))
+			} else {
+				sb.WriteString("<" + name + ">")
+			}
+			open = append(open, name)
+		case x < 16:
+			if len(open) > 0 && g.r.Intn(5) < 3 {
+				name = open[g.r.Intn(len(open))]
+			} else if g.r.Intn(3) == 0 {
+				// end tags the tree builder treats specially
+				name = g.pick([]string{"br", "p", "body", "html", "template", "form", "li", "dd", "dt", "h1", "h3", "applet", "marquee", "object",
+					"select", "table", "caption", "td", "tr", "tbody", "head", "frameset", "svg", "math", "a", "nobr", "font", "sarcasm", "noscript",
+					"textarea", "title", "script"})
+			}
+			sb.WriteString("</" + name + ">")
+		default:
+			sb.WriteString(g.pick([]string{"x", " ", "\n", "a b", "\x00", "&amp;", "1", "\r\n", "\f", "<!--c-->", "\xff"}))
+		}
+	}
+	return []byte(sb.String())
+}
+
+// dense: many tag / comment / doctype tokens and little text
+func (g *vfGen) dense() []byte {
+	var sb strings.Builder
+	for n := 4 + g.r.Intn(12); n > 0; n-- {
+		switch x := g.r.Intn(10); {
+		case x < 4:
+			sb.WriteString(g.startTag(g.pick(vfTagNames)))
+		case x < 5:
+			sb.WriteString(g.endTag(g.pick(vfTagNames)))
+		case x < 8:
+			sb.WriteString(g.comment())
+		default:
+			sb.WriteString(g.doctype())
+		}
+	}
+	return []byte(sb.String())
+}
+
+// input: the mixed population used by all three properties
 func (g *vfGen) input() []byte {
 	switch x := g.r.Intn(20); {
-	case x < 11:
+	case x < 7:
 		return g.grammar()
+	case x < 11:
+		return g.treeish()
+	case x < 12:
+		return g.dense()
 	case x < 14:
 		return append([]byte(nil), g.corpus[g.r.Intn(len(g.corpus))]...)
-	default:
+	case x < 18:
 		return g.mutate(g.corpus[g.r.Intn(len(g.corpus))])
+	case x < 19:
+		return append([]byte(nil), g.tokc[g.r.Intn(len(g.tokc))]...)
+	default:
+		return g.mutate(g.tokc[g.r.Intn(len(g.tokc))])
 	}
 }
 
@@ -577,7 +672,6 @@ func TestVerifHtmlScan(t *testing.T) {
 	if env == nil {
 		return
 	}
-	corpus := vfCorpus()
 	n := env.Int("inputs", 600)
 	nlong := env.Int("long", 6)
 	for tr := 1; tr <= n+nlong && !env.Hung; tr++ {
@@ -585,7 +679,7 @@ func TestVerifHtmlScan(t *testing.T) {
 			continue
 		}
 		r := env.Rand(int64(tr))
-		g := &vfGen{r: r, corpus: corpus}
+		g := vfNewGen(r)
 		var in []byte
 		if tr > n {
 			in = g.long()
@@ -881,114 +975,138 @@ func TestVerifHtmlEsc(t *testing.T) {
 		env.Finish(nil)
 		return
 	}
-	corpus := vfCorpus()
 	nesc := env.Int("esc", 150)
 	ntok := env.Int("tok", 250)
 	nrp := env.Int("rp", 150)
-	for tr := 1; tr <= nesc+ntok+nrp && !env.Hung; tr++ {
+	// trace numbers: 1..nesc strings; then vfTokPer numbers per tokenizer input (one trace per
+	// token, so that a known finding on one token does not hide the next); then the trees
+	tokBase, rpBase := nesc, nesc+ntok*vfTokPer
+	for tr := 1; tr <= nesc && !env.Hung; tr++ {
 		if !env.Only(tr) {
 			continue
 		}
 		r := env.Rand(int64(tr))
-		g := &vfGen{r: r, corpus: corpus}
-		switch {
-		case tr <= nesc:
-			for k := 0; k < 5 && !env.Hung; k++ {
-				s := g.escString(2 + r.Intn(12))
-				if r.Intn(10) == 0 {
-					s = string(g.input())
-					if len(s) > 300 {
-						s = s[:300]
-					}
-				}
-				var o, u string
-				res := vfCatchTimeout(10*time.Second, func() {
-					o = EscapeString(s)
-					u = UnescapeString(o)
-				})
-				if !vfEmitFault(env, tr, res) {
-					env.Emit(tr, map[string]any{"e": "esc", "s": vfIntsS(s), "o": vfIntsS(o), "u": vfIntsS(u)})
+		g := vfNewGen(r)
+		for k := 0; k < 5 && !env.Hung; k++ {
+			s := g.escString(2 + r.Intn(12))
+			if r.Intn(10) == 0 {
+				s = string(g.input())
+				if len(s) > 300 {
+					s = s[:300]
 				}
 			}
-		case tr <= nesc+ntok:
-			in := g.input()
-			if len(in) > 3000 {
-				in = in[:3000]
-			}
-			cdata := r.Intn(4) == 0
-			ctx := ""
-			if r.Intn(8) == 0 {
-				ctx = g.pick([]string{"title", "textarea", "div"})
-			}
-			var evs []map[string]any
+			var o, u string
 			res := vfCatchTimeout(10*time.Second, func() {
-				seen := map[string]bool{}
-				z := NewTokenizerFragment(bytes.NewReader(in), ctx)
-				z.AllowCDATA(cdata)
-				for steps := 0; steps <= len(in)+16; steps++ {
-					tt := z.Next()
-					if tt == ErrorToken {
-						return
-					}
-					if tt == TextToken {
-						continue
-					}
-					tok := z.Token()
-					s := tok.String()
-					if seen[s] {
-						continue
-					}
-					seen[s] = true
-					z2 := NewTokenizer(strings.NewReader(s))
-					var first Token
-					cnt := 0
-					for ; cnt < 6; cnt++ {
-						if z2.Next() == ErrorToken {
-							break
-						}
-						if cnt == 0 {
-							first = z2.Token()
-						}
-					}
-					evs = append(evs, map[string]any{"e": "tok", "a": vfProj(tok), "n": cnt, "b": vfProj(first), "str": vfIntsS(s)})
-				}
-			})
-			if res == "hang" {
-				vfEmitFault(env, tr, res)
-				break
-			}
-			for _, ev := range evs {
-				env.Emit(tr, ev)
-			}
-			vfEmitFault(env, tr, res)
-		default:
-			doc := g.vfBuildTree()
-			in := vfRP{Texts: [][]int{}, Attrs: []vfRPAttr{}}
-			b0 := 100000
-			vfProjTree(doc, &in, &b0)
-			out := vfRP{Texts: [][]int{}, Attrs: []vfRPAttr{}}
-			var rerr, perr error
-			var buf bytes.Buffer
-			res := vfCatchTimeout(10*time.Second, func() {
-				rerr = Render(&buf, doc)
-				if rerr != nil {
-					return
-				}
-				var doc2 *Node
-				doc2, perr = Parse(bytes.NewReader(buf.Bytes()))
-				if perr == nil {
-					b1 := 100000
-					vfProjTree(doc2, &out, &b1)
-				}
+				o = EscapeString(s)
+				u = UnescapeString(o)
 			})
 			if !vfEmitFault(env, tr, res) {
-				env.Emit(tr, map[string]any{"e": "rp", "rerr": rerr != nil, "perr": perr != nil, "in": in, "out": out,
-					"html": vfInts(buf.Bytes())})
+				env.Emit(tr, map[string]any{"e": "esc", "s": vfIntsS(s), "o": vfIntsS(o), "u": vfIntsS(u)})
 			}
+		}
+	}
+	for j := 1; j <= ntok && !env.Hung; j++ {
+		first := tokBase + (j-1)*vfTokPer + 1
+		if v, ok := env.Args["only"]; ok {
+			if f, ok := v.(float64); ok && (int(f) < first || int(f) >= first+vfTokPer) {
+				continue
+			}
+		}
+		r := env.Rand(int64(tokBase + j))
+		g := vfNewGen(r)
+		in := g.input()
+		if r.Intn(2) == 0 {
+			in = g.dense()
+		}
+		if len(in) > 3000 {
+			in = in[:3000]
+		}
+		cdata := r.Intn(4) == 0
+		ctx := ""
+		if r.Intn(8) == 0 {
+			ctx = g.pick([]string{"title", "textarea", "div"})
+		}
+		var evs []map[string]any
+		res := vfCatchTimeout(10*time.Second, func() {
+			seen := map[string]bool{}
+			z := NewTokenizerFragment(bytes.NewReader(in), ctx)
+			z.AllowCDATA(cdata)
+			for steps := 0; steps <= len(in)+16 && len(evs) < vfTokPer-1; steps++ {
+				tt := z.Next()
+				if tt == ErrorToken {
+					return
+				}
+				if tt == TextToken {
+					continue
+				}
+				tok := z.Token()
+				s := tok.String()
+				if seen[s] {
+					continue
+				}
+				seen[s] = true
+				z2 := NewTokenizer(strings.NewReader(s))
+				var first Token
+				cnt := 0
+				for ; cnt < 6; cnt++ {
+					if z2.Next() == ErrorToken {
+						break
+					}
+					if cnt == 0 {
+						first = z2.Token()
+					}
+				}
+				evs = append(evs, map[string]any{"e": "tok", "a": vfProj(tok), "n": cnt, "b": vfProj(first), "str": vfIntsS(s)})
+			}
+		})
+		if res == "hang" {
+			vfEmitFault(env, first, res)
+			break
+		}
+		for k, ev := range evs {
+			if env.Only(first + k) {
+				env.Emit(first+k, ev)
+			}
+		}
+		if res != "" && env.Only(first+len(evs)) {
+			vfEmitFault(env, first+len(evs), res)
+		}
+	}
+	for i := 1; i <= nrp && !env.Hung; i++ {
+		tr := rpBase + i
+		if !env.Only(tr) {
+			continue
+		}
+		r := env.Rand(int64(tr))
+		g := vfNewGen(r)
+		doc := g.vfBuildTree()
+		in := vfRP{Texts: [][]int{}, Attrs: []vfRPAttr{}}
+		b0 := 100000
+		vfProjTree(doc, &in, &b0)
+		out := vfRP{Texts: [][]int{}, Attrs: []vfRPAttr{}}
+		var rerr, perr error
+		var buf bytes.Buffer
+		res := vfCatchTimeout(10*time.Second, func() {
+			rerr = Render(&buf, doc)
+			if rerr != nil {
+				return
+			}
+			var doc2 *Node
+			doc2, perr = Parse(bytes.NewReader(buf.Bytes()))
+			if perr == nil {
+				b1 := 100000
+				vfProjTree(doc2, &out, &b1)
+			}
+		})
+		if !vfEmitFault(env, tr, res) {
+			env.Emit(tr, map[string]any{"e": "rp", "rerr": rerr != nil, "perr": perr != nil, "in": in, "out": out,
+				"html": vfInts(buf.Bytes())})
 		}
 	}
 	env.Finish(nil)
 }
+
+const vfTokPer = 40
 
 // vfEmitFault logs a panic / hang of the code under test (no spec action matches them).
 func vfEmitFault(env *vfEnv, tr int, res string) bool {
@@ -1101,14 +1219,13 @@ func TestVerifHtmlTree(t *testing.T) {
 		env.Finish(nil)
 		return
 	}
-	corpus := vfCorpus()
 	n := env.Int("inputs", 120)
 	nlong := env.Int("long", 2)
 	ndeep := env.Int("deep", 1)
 	total := n + nlong + ndeep
 	for idx := 1; idx <= total && !env.Hung; idx++ {
 		r := env.Rand(int64(idx))
-		g := &vfGen{r: r, corpus: corpus}
+		g := vfNewGen(r)
 		var in []byte
 		switch {
 		case idx > n+nlong:
@@ -1128,7 +1245,11 @@ func TestVerifHtmlTree(t *testing.T) {
 		}
 		cfgs := []cfg{{script: true}, {script: false}}
 		for len(cfgs) < vfCfgPerInput {
-			cfgs = append(cfgs, cfg{frag: true, ctx: vfContexts[r.Intn(len(vfContexts))], script: r.Intn(3) != 0,
+			cx := vfContexts[r.Intn(len(vfContexts))]
+			if r.Intn(7) == 0 {
+				cx = vfCtx{} // no context element
+			}
+			cfgs = append(cfgs, cfg{frag: true, ctx: cx, script: r.Intn(3) != 0,
 				form: r.Intn(6) == 0, enc: r.Intn(2) == 0})
 		}
 		for ci, c := range cfgs {
@@ -1166,9 +1287,18 @@ func TestVerifHtmlTree(t *testing.T) {
 			}
 			ev := map[string]any{"e": "parse", "mode": "doc", "ctx": c.ctx.name, "ns": c.ctx.ns, "script": c.script,
 				"err": "none", "render": "none", "rvoid": "-", "nodes": []vfRow{}, "len": len(in)}
-			if len(in) <= 200 {
+			if len(in) <= 2000 {
 				ev["input"] = vfInts(in)
 			}
+			// descriptive only (finding signatures): constructs present in the input
+			feat := []string{}
+			low := bytes.ToLower(in)
+			for _, k := range []string{"<select", "<input", "</html", "</body", "</br", "<noscript"} {
+				if bytes.Contains(low, []byte(k)) {
+					feat = append(feat, k)
+				}
+			}
+			ev["feat"] = feat
 			if c.frag {
 				ev["mode"] = "frag"
 			}
